@@ -42,6 +42,7 @@ package operation
 
 // Retired operations never come back: whatever is offered as pending excludes every tombstone that was read.
 //@ func (*BaseOperationRepo).getDeletedOperations
+//@   safety C15
 //@   nosafety
 //@   requires r != nil
 //@   pure
